@@ -6,7 +6,7 @@ import TmVerif.Proofs.LRXSafeReduce
 import TmVerif.Proofs.LRX
 namespace TmVerif.LRX
 open TmVerif.LR TmVerif.CFG TmVerif.LRSound
-variable {g : Grammar} {x : XTables} {cert : Cert} {xc : XCert}
+variable {g : Grammar} {x : XTables} {cert : Cert} {xc : XCert} {i : Nat}
 
 /-! ### folds over `Option` accumulators with absorbing `none` -/
 
@@ -111,13 +111,13 @@ def XNextOk (inp : Input) (c : XCfg) : Prop :=
   ∀ tk, c.next = some tk → 1 ≤ c.pos ∧ tk = inp.tok (c.pos - 1)
 
 /-- the invariant of the extended runtime: the states on the stack form a certified path -/
-def XInv (g : Grammar) (x : XTables) (cert : Cert) (inp : Input) (c : XCfg) : Prop :=
-  ∃ (s : Nat) (rest : List Nat) (syms : List Int), StOk g x cert (s :: rest) syms ∧
+def XInv (g : Grammar) (x : XTables) (cert : Cert) (i : Nat) (inp : Input) (c : XCfg) : Prop :=
+  ∃ (s : Nat) (rest : List Nat) (syms : List Int), StOk g x cert i (s :: rest) syms ∧
     c.stack.map (·.state) = (s :: rest).map Int.ofNat ∧ c.state = (s : Int) ∧ XNextOk inp c
 
-theorem xinv_xinit (inp : Input) (i : Nat) (hi : i < g.inputs.size) :
-    XInv g x cert inp (xinit inp i) :=
-  ⟨i, [], [], .base i hi, rfl, rfl, by
+theorem xinv_xinit (hcl : ReachClosed g x cert) (inp : Input) (hi : i < g.inputs.size) :
+    XInv g x cert i inp (xinit inp i) :=
+  ⟨i, [], [], .base hi (hcl i hi).1, rfl, rfl, by
     intro tk h
     simp only [xinit, Option.some.injEq] at h
     exact ⟨Nat.le_refl _, h.symm⟩⟩
@@ -145,8 +145,8 @@ theorem xfetch_spec (inp : Input) (c : XCfg) (h : XNextOk inp c) :
     simp only [Option.some.injEq] at htk
     exact ⟨Nat.le_add_left _ _, by rw [← htk]; simp⟩
 
-theorem XInv.fetch {inp : Input} {c : XCfg} (h : XInv g x cert inp c) :
-    XInv g x cert inp (c.fetch inp).1 := by
+theorem XInv.fetch {inp : Input} {c : XCfg} (h : XInv g x cert i inp c) :
+    XInv g x cert i inp (c.fetch inp).1 := by
   obtain ⟨s, rest, syms, h1, h2, h3, h4⟩ := h
   obtain ⟨_, _, f3, f4, f5⟩ := xfetch_spec inp c h4
   exact ⟨s, rest, syms, h1, by rw [f3]; exact h2, by rw [f4]; exact h3, f5⟩
@@ -201,9 +201,9 @@ theorem xdecode_spec (hc : CertFacts g x.t cert) {inp : Input} (htok : TokOk x.t
         rw [e]
         exact ⟨c, act, rfl, rfl, hst, hn, Or.inr ⟨rfl, hok⟩⟩
 
-theorem XInv.congr {inp : Input} {c c' : XCfg} (h : XInv g x cert inp c)
+theorem XInv.congr {inp : Input} {c c' : XCfg} (h : XInv g x cert i inp c)
     (h1 : c'.stack = c.stack) (h2 : c'.state = c.state) (h3 : c'.next = c.next)
-    (h4 : c'.pos = c.pos) : XInv g x cert inp c' := by
+    (h4 : c'.pos = c.pos) : XInv g x cert i inp c' := by
   obtain ⟨s, rest, syms, a, b, c0, d⟩ := h
   refine ⟨s, rest, syms, a, by rw [h1]; exact b, by rw [h2]; exact c0, ?_⟩
   intro tk htk
@@ -218,8 +218,10 @@ theorem xreduceTail_safe (hx : XFacts g x cert xc) {inp : Input} {c2 : XCfg} {ru
     (hstk : c2.stack.map (·.state) = (s :: rest).map Int.ofNat)
     (hdrop : (s :: rest).drop r.rhs.length = p' :: rest')
     (hg : gotoState x.t p' r.lhs = some (q : Int))
-    (hnew : StOk g x cert (q :: p' :: rest') syms') (hn : XNextOk inp c2) :
-    ∃ c3, xreduceTail x c2 rule r.rhs.length r.lhs off endo = .cont c3 ∧ XInv g x cert inp c3 := by
+    (hnew : StOk g x cert i (q :: p' :: rest') syms') (hn : XNextOk inp c2) :
+    ∃ c3, xreduceTail x c2 rule r.rhs.length r.lhs off endo = .cont c3 ∧ XInv g x cert i inp c3 ∧
+      (∃ e, e.state = (q : Int) ∧ c3.stack = e :: c2.stack.drop r.rhs.length) ∧ c3.state = (q : Int) ∧
+      c3.next = c2.next ∧ c3.pos = c2.pos := by
   have hl : r.rhs.length ≤ c2.stack.length := by
     have h1 := congrArg List.length hstk
     have h2 := congrArg List.length hdrop
@@ -243,21 +245,24 @@ theorem xreduceTail_safe (hx : XFacts g x cert xc) {inp : Input} {c2 : XCfg} {ru
     rw [e, hg]
     have hq : ¬ ((q : Int) = -1) := by omega
     simp only [hq, if_false]
-    refine ⟨_, rfl, q, p' :: rest', syms', hnew, ?_, rfl, ?_⟩
+    refine ⟨_, rfl, ⟨q, p' :: rest', syms', hnew, ?_, rfl, ?_⟩, ⟨_, rfl, rfl⟩, rfl, rfl, rfl⟩
     · simp only [List.map_cons, List.cons.injEq]
       exact ⟨rfl, e, hd.2⟩
     · exact hn
 
 /-- what a pre-step may produce under the invariant -/
-def XPre.Safe (g : Grammar) (x : XTables) (cert : Cert) (inp : Input) : XPre → Prop
-  | .cont c => XInv g x cert inp c
-  | .err c => XInv g x cert inp c
+def XPre.Safe (g : Grammar) (x : XTables) (cert : Cert) (i : Nat) (inp : Input) : XPre → Prop
+  | .cont c => XInv g x cert i inp c
+  | .err c => XInv g x cert i inp c
   | .done r _ => r ≠ .panic
 
 theorem xpre_safe (hc : CertFacts g x.t cert) (hx : XFacts g x cert xc) {inp : Input}
-    (htok : TokOk x.t inp) (k : Nat) (c : XCfg) (h : XInv g x cert inp c) :
-    (xpre x inp k c).Safe g x cert inp := by
+    (htok : TokOk x.t inp) (k : Nat) (c : XCfg) (h : XInv g x cert i inp c)
+    (hne : c.state ≠ finOf x i) :
+    (xpre x inp k c).Safe g x cert i inp := by
   obtain ⟨s, rest, syms, hstk, hmap, hst, hn⟩ := h
+  have hi := hstk.input_lt
+  have hne' : (s : Int) ≠ finOf x i := by rw [← hst]; exact hne
   have hs : s < x.t.nStates := hstk.lt hc s (by simp)
   have h0 : 0 < x.t.nTerms := by have := (wfFacts hc.wf).nTermsPos; have := hc.nTerms; omega
   obtain ⟨c1, act, hd, e1, e2, hn1, hact⟩ := xdecode_spec hc htok h0 c s hs hst hn
@@ -268,7 +273,7 @@ theorem xpre_safe (hc : CertFacts g x.t cert) (hx : XFacts g x cert xc) {inp : I
   | error =>
     simp only
     unfold xerrorPre
-    have hinv : XInv g x cert inp c1 := ⟨s, rest, syms, hstk, hmap, e2.trans hst, hn1⟩
+    have hinv : XInv g x cert i inp c1 := ⟨s, rest, syms, hstk, hmap, e2.trans hst, hn1⟩
     split
     · split
       · exact fun h => nomatch h
@@ -285,8 +290,9 @@ theorem xpre_safe (hc : CertFacts g x.t cert) (hx : XFacts g x cert xc) {inp : I
         have hE : TermEdge x.t s a q := ⟨hs, ha3, ha4, ha5⟩
         obtain ⟨q', hq', _, hq2, hq3⟩ := edgeOk_elim (show edgeOk g.inputs.size x.t cert s (a : Nat) q = true from ha6)
         subst hq'
-        refine ⟨q', s :: rest, _, StOk.push q' s rest a syms hstk
-          (List.mem_append_left _ (termEdge_mem hE)) hq2 hq3, ?_, rfl, ?_⟩
+        have hedge : (s, a, (q' : Int)) ∈ xedges x := List.mem_append_left _ (termEdge_mem hE)
+        refine ⟨q', s :: rest, _, StOk.push q' s rest a syms hstk hedge hq2 hq3
+          ((hx.closed hc i hi).2 s a q' hedge (hstk.mem_reach s (by simp))), ?_, rfl, ?_⟩
         · simp only [List.map_cons, List.cons.injEq]
           exact ⟨rfl, by simpa using hmap⟩
         · intro tk' htk'
@@ -303,7 +309,7 @@ theorem xpre_safe (hc : CertFacts g x.t cert) (hx : XFacts g x cert xc) {inp : I
       · exact ⟨0, h0, ha⟩
     obtain ⟨a, ha, hra⟩ := hact0
     obtain ⟨rule, p', rest', q, hr0, hrule, hlen, hsym, hdrop, hg, hnew, _⟩ :=
-      hstk.reduce hc hx.rk ha hra
+      hstk.reduce hc hx.rk (hx.closed hc) ha hne' hra
     have hl : rule.rhs.length < c1.stack.length := by
       have h1 := congrArg List.length hmap
       have h2 := congrArg List.length hdrop
@@ -317,13 +323,13 @@ theorem xpre_safe (hc : CertFacts g x.t cert) (hx : XFacts g x cert xc) {inp : I
     by_cases hz : rule.rhs.length = 0
     · simp only [hz, if_true]
       obtain ⟨_, _, f3, _, f5⟩ := xfetch_spec inp c1 hn1
-      obtain ⟨c3, hc3, hinv⟩ := xreduceTail_safe hx (inp := inp) (c2 := (c1.fetch inp).1)
+      obtain ⟨c3, hc3, hinv, _⟩ := xreduceTail_safe hx (inp := inp) (c2 := (c1.fetch inp).1)
         (c1.fetch inp).2.off (c1.fetch inp).2.off hr0 hlen (by rw [f3]; exact hmap) hdrop hg hnew f5
       rw [hz] at hc3
       rw [hc3]
       exact hinv
     · simp only [hz, if_false]
-      obtain ⟨c3, hc3, hinv⟩ := xreduceTail_safe hx (inp := inp) (c2 := c1)
+      obtain ⟨c3, hc3, hinv, _⟩ := xreduceTail_safe hx (inp := inp) (c2 := c1)
         (((c1.stack.take rule.rhs.length).getLast?.map (·.off)).getD 0)
         (((c1.stack.take rule.rhs.length).head?.map (·.endo)).getD 0) hr0 hlen hmap hdrop hg hnew hn1
       rw [hc3]
